@@ -21,7 +21,7 @@ PROP = 'C15'
 MANIFEST = dict(
     category='exploration', design_ref='DESIGN.md §3 C15',
     technique='bounded-exhaustive enumeration of hypernym graphs x lexicalisations x corpora x flags on the real wn.ic.compute/load vs a reference written from the documented semantics',
-    text='For every labelled DAG on up to 4 nodes and every cyclic digraph on up to 3 nodes (with self-loops), in an all-noun and an adjective/satellite colouring, and for every corpus that is a multiset of up to 3 tokens over {a word of one synset, a word of two synsets, a multi-word lemma, an unknown word}, wn.ic.compute is run with distribute_weight on/off and smoothing 1.0 / 0.5 / 0.0 and compared with the reference: per part of speech the total is smoothing + the sum of the (optionally evenly distributed) counts of known words, each synset gets smoothing + that weight for every word synset that is the synset itself or one of its distinct hypernym ancestors - once per word synset however many paths converge; derived obligations (weights never decrease going up, synset_probability in (0,1], information_content >= 0 and not larger for a hypernym, unknown words ignored, satellites counted as adjectives - also through synset_probability / information_content) are checked on every synset. load() is compared with the expected structure for every subset of lines and every ROOT-flag placement of generated weight files.',
+    text='For every labelled DAG on up to 4 nodes and every cyclic digraph on up to 3 nodes (with self-loops), in an all-noun and an adjective/satellite colouring, and for every corpus that is a multiset of up to 3 tokens over {a word of one synset, a word of two synsets, a multi-word lemma, an unknown word}, wn.ic.compute is run with distribute_weight on/off and smoothing 1.0 / 0.5 / 0.0 and compared with the reference: per part of speech the total is smoothing + the sum of the (optionally evenly distributed) counts of known words, each synset gets smoothing + that weight for every word synset that is the synset itself or one of its distinct hypernym ancestors - once per word synset however many paths converge; derived obligations (weights never decrease going up, synset_probability in (0,1], information_content >= 0 and not larger for a hypernym, unknown words ignored, satellites counted as adjectives - also through synset_probability / information_content) are checked on every synset. the DAGs (thorough: all digraphs n<=3) are also presented in expanded mode - the graph borrowed from an expand lexicon, only a subset of the nodes stored in the queried lexicon, ancestors reached through *INFERRED* placeholders that have no table entry of their own; load() is compared with the expected structure for every subset of lines and every ROOT-flag placement of generated weight files.',
     note='Corpus tokens are exact lemmas (form search itself is C09). Floats compared with 1e-9 tolerance.',
 )
 
@@ -53,7 +53,37 @@ def build(lid, g):
             ents.append(mk.entry(f'{lid}-e{k}', word, p,
                                  senses=[mk.sense(f'{lid}-s{k}-{i}', sid[i]) for i in ns]))
             k += 1
-    return mk.lexicon(lid, '1', entries=ents, synsets=syns), edges, sid, lex_of
+    return [mk.lexicon(lid, '1', entries=ents, synsets=syns)], edges, sid, lex_of
+
+
+def build_expanded(lid, g):
+    """expanded mode: the hypernym graph lives in the expand lexicon <lid>q; the queried lexicon has bare
+    ILI-linked synsets (and the words) for the nodes of the 'real' mask only - hypernym ancestors are reached
+    through *INFERRED* placeholders, which have no key in the weight table"""
+    n, prs = g['n'], pairs(g['n'], g['loops'])
+    edges = edges_of(g['h'], prs)
+    pos = g['pos']
+    q = lid + 'q'
+    real = [i for i in range(n) if g['real'] >> i & 1]
+    qs = [mk.synset(f'{q}-{i}', pos[i], f'i{lid}x{i}',
+                    relations=[mk.rel(f'{q}-{j}', 'hypernym') for (a, j) in edges if a == i]) for i in range(n)]
+    sid = [f'{lid}-{i:08}-{pos[i]}' for i in range(n)]
+    ps = [mk.synset(sid[i], pos[i], f'i{lid}x{i}') for i in real]
+    lex_of = {'w0': [0], 'amb': sorted({0, n - 1}), 'stone fruit': [1] if n >= 2 else [],
+              'W0': [n - 1] if n >= 2 else []}
+    lex_of = {wd: [i for i in ns if i in real] for wd, ns in lex_of.items()}
+    ents = []
+    k = 0
+    for word, nodes in lex_of.items():
+        bypos = {}
+        for i in nodes:
+            bypos.setdefault(pos[i], []).append(i)
+        for pp, ns in bypos.items():
+            ents.append(mk.entry(f'{lid}-e{k}', word, pp,
+                                 senses=[mk.sense(f'{lid}-s{k}-{i}', sid[i]) for i in ns]))
+            k += 1
+    return ([mk.lexicon(lid, '1', entries=ents, synsets=ps), mk.lexicon(q, '1', synsets=qs)],
+            edges, sid, lex_of)
 
 
 def ancestors(n, edges, x):
@@ -91,8 +121,9 @@ def lookup(lex_of, tok):
 
 def reference(g, edges, sid, lex_of, corpus, distribute, smoothing):
     n, pos = g['n'], g['pos']
+    real = [i for i in range(n) if g.get('real', -1) >> i & 1]
     freq = {p: {None: smoothing} for p in IC_POS}
-    for i in range(n):
+    for i in real:
         if fold(pos[i]) in freq:
             freq[fold(pos[i])][sid[i]] = smoothing
     for word, count in Counter(corpus).items():
@@ -106,8 +137,10 @@ def reference(g, edges, sid, lex_of, corpus, distribute, smoothing):
                 continue
             freq[p][None] += weight
             for a in ancestors(n, edges, i):
-                # ancestors live in the bucket of the word synset's part of speech
-                freq[p][sid[a]] = freq[p].get(sid[a], 0.0) + weight
+                # ancestors live in the bucket of the word synset's part of speech; placeholders of an
+                # expanded wordnet are passed through but have no entry of their own
+                if a in real:
+                    freq[p][sid[a]] = freq[p].get(sid[a], 0.0) + weight
     return freq
 
 
@@ -119,9 +152,12 @@ def check_graph(lid, g, edges, sid, lex_of, corpora, V, obs):
     n, pos = g['n'], g['pos']
     with warnings.catch_warnings():
         warnings.simplefilter('ignore')
-        w = wn.Wordnet(lexicon=f'{lid}:1', expand='')
-    ss = {i: w.synset(sid[i]) for i in range(n)}
+        w = wn.Wordnet(lexicon=f'{lid}:1', expand=f'{lid}q:1' if 'real' in g else '')
+    real = [i for i in range(n) if g.get('real', -1) >> i & 1]
+    ss = {i: w.synset(sid[i]) for i in real}
     mixed_pos = len({fold(p) for p in pos}) > 1
+    # (i, j): j is a proper hypernym ancestor of i, both stored in the queried lexicon
+    up = [(i, j) for i in real for j in ancestors(n, edges, i) if j != i and j in real] if 'real' in g else edges
 
     def bad(key, msg):
         V.append((key, f'{msg} :: graph {g}', None, g))
@@ -157,12 +193,12 @@ def check_graph(lid, g, edges, sid, lex_of, corpora, V, obs):
                             break
                 # derived obligations on the implementation's own numbers
                 if not mixed_pos:
-                    for i, j in edges:
+                    for i, j in up:
                         p = fold(pos[i])
                         if p in got and got[p].get(sid[j], 0) + 1e-9 < got[p].get(sid[i], 0):
                             bad('monotone:weight-decreases-upwards', f'{cfg}: w[{j}] < w[{i}]')
                 if smoothing > 0:
-                    for i in range(n):
+                    for i in real:
                         p = fold(pos[i])
                         if p not in IC_POS:
                             continue
@@ -181,7 +217,7 @@ def check_graph(lid, g, edges, sid, lex_of, corpora, V, obs):
                         if ic < -1e-12:
                             bad('information_content:negative', f'{cfg}: node {i}: IC = {ic}')
                     if not mixed_pos:
-                        for i, j in edges:
+                        for i, j in up:
                             try:
                                 if wn.ic.information_content(ss[j], got) > wn.ic.information_content(ss[i], got) + 1e-9:
                                     bad('information_content:hypernym-more-informative', f'{cfg}: IC[{j}] > IC[{i}]')
@@ -198,8 +234,8 @@ def check_twin(case):
         n = 3
         gA = {'n': n, 'loops': False, 'h': case['ha'], 'pos': 'nnn'}
         gB = {'n': n, 'loops': False, 'h': case['hb'], 'pos': 'nnn'}
-        lexA, edgesA, sid, lex_of = build('tw', gA)
-        lexB, edgesB, _, _ = build('tw', gB)
+        (lexA,), edgesA, sid, lex_of = build('tw', gA)
+        (lexB,), edgesB, _, _ = build('tw', gB)
         lexB['version'] = '2'
         for e_ in lexB['entries']:
             e_['lemma']['writtenForm'] += '2'            # version 2 uses other words
@@ -251,8 +287,8 @@ def check(case):
         built, lexs = [], []
         for k, g in enumerate(case['graphs']):
             lid = f'ic{k}'
-            lex, edges, sid, lex_of = build(lid, g)
-            lexs.append(lex)
+            lex, edges, sid, lex_of = (build_expanded if 'real' in g else build)(lid, g)
+            lexs.extend(lex)
             built.append((lid, g, edges, sid, lex_of))
         env.add_resource(mk.resource(lexs, '1.0'))
         corpora = [tuple(c) for c in case['corpora']]
@@ -276,7 +312,7 @@ def check_load(case):
         nn = case['n']
         pos = case['pos']
         g = {'n': nn, 'loops': False, 'h': 0, 'pos': pos}
-        lex, edges, sid, lex_of = build('icl', g)
+        (lex,), edges, sid, lex_of = build('icl', g)
         env.add_resource(mk.resource([lex], '1.0'))
         w = wn.Wordnet(lexicon='icl:1', expand='')
         d = env.new_dir('icl')
@@ -333,6 +369,12 @@ def space(tier, seed):
     if tier == 'thorough':
         for h in dag_masks(4):
             gs.append({'n': 4, 'loops': False, 'h': h, 'pos': 'asas', 'dag': True})
+    # expanded mode: the graph is borrowed from an expand lexicon; only the nodes of the mask (always node 0,
+    # which carries the words w0 / amb) are stored in the queried lexicon, the others are placeholders
+    for n, masks in ((2, (1, 3)), (3, (1, 3, 5, 7)), (4, (1, 9, 3) if tier == 'quick' else (1, 3, 5, 9, 7, 11, 13, 15))):
+        for h in (range(1 << (n * n)) if n < 4 and tier == 'thorough' else dag_masks(n)):
+            for m in masks:
+                gs.append({'n': n, 'loops': n < 4 and tier == 'thorough', 'h': h, 'pos': 'n' * n, 'dag': True, 'real': m})
     cs = corpora(3 if tier == 'thorough' else 2)
     if tier == 'quick':
         cs += [['w0', 'w0', 'amb'], ['amb', 'amb', 'stone fruit'], ['w0', 'amb', 'stone fruit'],
